@@ -330,7 +330,7 @@ func c12CheckTT(c c12TT) *kit.Fail {
 	}
 	if r.DoF >= 1 && r.DoF <= 1e5 {
 		ref := c12TCDF(r.DoF, r.T)
-		tol := c12TTol(r.DoF)
+		tol := c12TTolAt(r.DoF, r.T)
 		if math.Abs(pl-ref) > tol {
 			return kit.Failf("ttest-tails", "%s: P(less) = %.17g but the t distribution function (dof %v) at T=%v is %.17g", name, pl, r.DoF, r.T, ref)
 		}
